@@ -86,6 +86,11 @@ def check_valid(ctx, tree, which="public"):
         fr = lib_frame(e.__traceback__) or "?"
         raise Violation("c01:valid-rejected:%s:%s" % (type(e).__name__, fr),
                         "%r raised %s: %s" % (s, type(e).__name__, str(e)[:200]), case)
+    # parsing the same string again must give an equal, distinct formula
+    f2 = E["formula"](s, table=table)
+    if f2 is f or f2.structure != f.structure or f2.density != f.density:
+        raise Violation("c01:reparse-differs", "%r parsed twice: %r density %r, then %r density %r%s"
+                        % (s, f.structure, f.density, f2.structure, f2.density, " (same object)" if f2 is f else ""), case)
     got = {}
     for atom, n in f.atoms.items():
         k = atom_key(atom)
@@ -349,13 +354,22 @@ def check_malformed(ctx, value, which="public"):
     s, detail = m
     ctx.case((which, "bad", s), nontrivial=True, sample={"table": which, "string": s, "malformation": detail},
              cls=["malformed:" + kind, "table:" + which])
-    try:
-        f = E["formula"](s, table=E["tables"][which])
-    except Exception:  # noqa  (any exception is a rejection)
+    f = None
+    for attempt in (1, 2):
+        # the second submission of the same malformed string must be rejected as well
+        # (a rejected parse must not leave anything behind that makes the string acceptable)
+        try:
+            f = E["formula"](s, table=E["tables"][which])
+        except Exception:  # noqa  (any exception is a rejection)
+            continue
+        break
+    if f is None:
         return
     sub = kind
     if kind == "density-tag":
         sub = kind + ":" + ("missing-number" if detail.split()[-1] in ("@", "@n", "@i") else "other")
+    if attempt == 2:
+        sub += ":second-submission"
     raise Violation("c01:accepted:" + sub,
                     "%r (%s) was accepted as %r density=%r" % (s, detail, f.structure, f.density),
                     {"kind": "malformed", "table": which, "tree": tree, "malformation": kind, "r": r, "string": s})
